@@ -90,9 +90,12 @@ Lemma close_cb_len d w : len_ok w -> len_ok (close_cb d w).
 Proof.
   intros H. rewrite close_cb_eq.
   assert (L : len_ok (close_fn d (cb_enter 2 w))) by (apply close_fn_len, cb_enter_len, H).
-  unfold close_hand. destruct (_ && _); [|exact L]. cbv zeta.
-  destruct (a_newbuf _) as [b|]; [|apply logev_len, L].
-  unfold len_ok; up. unfold zeros. apply repeat_length.
+  unfold close_hand. destruct (_ && _); [|exact L].
+  assert (L2 : len_ok (close_give d (hd_ans w) (close_fn d (cb_enter 2 w)))).
+  { unfold close_give. cbv zeta.
+    destruct (a_newbuf _) as [b|]; [|apply logev_len, L].
+    unfold len_ok; up. unfold zeros. apply repeat_length. }
+  destruct (a_eager _); [apply open_fn_len|]; exact L2.
 Qed.
 Lemma with_use_ts_len f w : (forall x, len_ok x -> len_ok (f x)) -> len_ok w -> len_ok (with_use_ts f w).
 Proof.
